@@ -31,7 +31,7 @@ MANIFEST = dict(cat=LEVEL, ref="DESIGN.md 3.11, 6 (C27)",
 
 PROOFS = os.path.join(vlib.SPEC, "proofs")
 THEOREMS = ["RoundTrip", "CanonicalLen", "DecTotal", "DecPrefix", "EncRefines", "DecRefines", "ValInjective", "DigitRoundTrip"]
-CACHE = os.path.join(vlib.ROOT, "out", "tlaps-cache")     # fingerprints of obligations already proved (quick tier)
+CACHE = os.path.join(vlib.ROOT, "out", "cache", "tlaps")     # fingerprints of obligations already proved (quick tier)
 
 
 def run_tlapm(chk, fresh):
@@ -168,7 +168,7 @@ def run(chk):
     chk.assumptions += ["tlapm's obligation generation and SMT encoding, Z3 4.8.9 (no Isabelle re-check of the SMT proofs)",
                         "numerals above 2^62 cannot be written in tlapm: the u64 range is {v \\in Nat : v \\div 2^32 <= 2^32-1}",
                         "the Rust functions are tied to the proved definitions by the finite conformance sample only",
-                        "quick tier: obligations whose fingerprint is in out/tlaps-cache are not re-proved (thorough re-proves all)"]
+                        "quick tier: obligations whose fingerprint is in out/cache/tlaps are not re-proved (thorough re-proves all)"]
     vlib.build_harness(); chk.mark("build")
     # (1) proof
     pr = run_tlapm(chk, fresh=thorough); chk.mark("tlapm")
